@@ -302,17 +302,26 @@ def adjust_offsets_w_sustain(
     # adjust offset times of notes that have a reonset while the sustain pedal is on
     pitches = np.array([n["midi_pitch"] for n in notes])
     note_ons = np.array([n["note_on"] for n in notes])
+    note_offs = np.fromiter((n["note_off"] for n in notes), dtype=float)
 
     for pitch in np.unique(pitches):
         pitch_indices = np.where(pitches == pitch)[0]
 
-        sorted_indices = pitch_indices[np.argsort(note_ons[pitch_indices])]
+        sorted_indices = pitch_indices[
+            np.argsort(note_ons[pitch_indices], kind="stable")
+        ]
         sorted_note_ons = note_ons[sorted_indices]
-        sorted_sound_offs = offs[sorted_indices]
 
-        adjusted_sound_offs = np.minimum(sorted_sound_offs[:-1], sorted_note_ons[1:])
-
-        offs[sorted_indices[:-1]] = adjusted_sound_offs
+        # the first onset of the same pitch that is not before the release of
+        # the note (a note of this pitch that starts while this one is still
+        # held does not cut it)
+        next_on = np.searchsorted(
+            sorted_note_ons, note_offs[sorted_indices], side="left"
+        )
+        next_on = np.maximum(next_on, np.arange(len(sorted_indices)) + 1)
+        has_next = next_on < len(sorted_indices)
+        idx = sorted_indices[has_next]
+        offs[idx] = np.minimum(offs[idx], sorted_note_ons[next_on[has_next]])
 
     for offset, note in zip(offs, notes):
         note["sound_off"] = offset
